@@ -234,6 +234,7 @@ theorem detwingle_total (bs : Bytes) : (detwingle bs).isSome = true :=
 theorem detwingleImpl_refines (c : Cfg) (bs : Bytes) : detwingleImplWith c bs = detwingleWith c bs :=
   detwingleImplWith_eq c bs
 
+/-- The same for the live class attributes: the code-mirror and the specification agree on every input. -/
 theorem detwingleImpl_eq (bs : Bytes) : detwingleImpl bs = detwingle bs := detwingleImplWith_eq liveCfg bs
 
 example : detwingleImpl [0x61, 0x93, 0xE2, 0x82, 0xAC, 0x94] =
@@ -280,6 +281,17 @@ theorem lead_byte_entries_are_dead (table' : List (Nat × Bytes))
   apply scan_congr liveCfg { liveCfg with table := table' } rfl rfl rfl
   intro b hb
   simp only [Cfg.conv?, h b hb]
+
+/-- e.g. putting the correct value for 0xE1 (`á` = C3 A1) in front changes nothing, for any input -/
+example (bs : Bytes) : detwingleWith { liveCfg with table := (0xE1, [0xC3, 0xA1]) :: liveCfg.table } bs = detwingle bs :=
+  lead_byte_entries_are_dead _ (by
+    intro b hb
+    have hne : (b == 0xE1) = false := by
+      cases h : b == 0xE1
+      · rfl
+      · have : b = 0xE1 := by simpa using h
+        subst this; revert hb; decide +kernel
+    simp [List.lookup_cons, hne]) bs
 
 /-- 0xE1 is in the lead-byte range, so its entry is one of the dead ones. -/
 theorem entry_E1_unreachable : liveCfg.isMarker 0xE1 = true ∧ ¬ liveCfg.Convertible 0xE1 := by decide +kernel
@@ -335,6 +347,9 @@ theorem decodeUtf8_iff (bs : Bytes) (s : PStr) :
     decodeUtf8 bs = some s ↔ bs = utf8 s ∧ ∀ c ∈ s, IsScalar c :=
   ⟨decodeUtf8_sound bs s, fun ⟨h1, h2⟩ => h1 ▸ decodeUtf8_utf8 s h2⟩
 
+example : decodeUtf8 (utf8 [0x61, 0x20AC, 0x10FFFF]) = some [0x61, 0x20AC, 0x10FFFF] := of_evalsTo (by decide +kernel)
+
+/-- `ValidUtf8` (existential) and the decidable scanner coincide. -/
 theorem valid_utf8_iff_decodes (bs : Bytes) : ValidUtf8 bs ↔ (decodeUtf8 bs).isSome = true := by
   constructor
   · rintro ⟨s, hs, rfl⟩; simp [decodeUtf8_utf8 s hs]
